@@ -132,7 +132,7 @@ func init() {
 		if err != nil {
 			return nil, err
 		}
-		r := secp256k1.NewIdentityPoint()
+		r := newRcvr()
 		return func() func() [][]byte {
 			r.ScalarMult(s, p)
 			return func() [][]byte { return [][]byte{r.UncompressedBytes()} }
@@ -146,7 +146,7 @@ func init() {
 		if err != nil {
 			return nil, err
 		}
-		r := secp256k1.NewIdentityPoint()
+		r := newRcvr()
 		return func() func() [][]byte {
 			r.ScalarBaseMult(s)
 			return func() [][]byte { return [][]byte{r.UncompressedBytes()} }
@@ -170,7 +170,7 @@ func init() {
 				}
 				ss, ps = append(ss, s), append(ps, p)
 			}
-			r := secp256k1.NewIdentityPoint()
+			r := newRcvr()
 			return func() func() [][]byte {
 				if vartime {
 					r.MultiScalarMultVartime(ss, ps)
@@ -214,7 +214,7 @@ func init() {
 			h := sha256.Sum256(append(append([]byte(nil), args[2]...), ctr[:]...))
 			scalars[i], _ = secp256k1.NewScalarFromBytes(&h)
 		}
-		r := secp256k1.NewIdentityPoint()
+		r := newRcvr()
 		if rcv != 0xffffffff {
 			r = points[int(rcv)%n]
 		}
@@ -244,7 +244,7 @@ func init() {
 		if err != nil {
 			return nil, err
 		}
-		r := secp256k1.NewIdentityPoint()
+		r := newRcvr()
 		return func() func() [][]byte {
 			r.DoubleScalarMultBasepointVartime(u1, u2, p)
 			return func() [][]byte { return [][]byte{r.UncompressedBytes()} }
@@ -459,10 +459,43 @@ func init() {
 			return nil, err
 		}
 		src := args[0]
-		r := secp256k1.NewIdentityPoint()
+		r := newRcvr()
 		return func() func() [][]byte {
 			r.SetUniformBytes(src)
 			return func() [][]byte { return [][]byte{r.UncompressedBytes()} }
 		}, nil
 	})
+}
+
+// rcvMode selects what the receiver of the point operations holds before the
+// call ("<op>@<mode>" in a request; default 0).  A library call overwrites its
+// receiver, so the result must not depend on it -- in any build.
+//
+//	0 a fresh identity          1 the generator (x != 0, Z = 1)
+//	2 2G as the doubling formula leaves it (Z != 1)
+//	3 G - G (the identity as the addition formula leaves it)
+//	4 the receiver object of the previous point operation, result still in it
+var (
+	rcvMode  int
+	lastRcvr *secp256k1.Point
+)
+
+func newRcvr() *secp256k1.Point {
+	var r *secp256k1.Point
+	g := secp256k1.NewGeneratorPoint()
+	switch rcvMode {
+	case 1:
+		r = g
+	case 2:
+		r = secp256k1.NewIdentityPoint().Double(g)
+	case 3:
+		r = secp256k1.NewIdentityPoint().Subtract(g, g)
+	case 4:
+		r = lastRcvr
+	}
+	if r == nil {
+		r = secp256k1.NewIdentityPoint()
+	}
+	lastRcvr = r
+	return r
 }
